@@ -78,7 +78,7 @@ func (tf *transferFacts) nilFieldStore(in ssa.Instruction) bool {
 
 func callTo(pred func(*types.Func) bool) func(ssa.Instruction) bool {
 	return func(in ssa.Instruction) bool {
-		return core.CallsDeep(in, func(c ssa.CallInstruction) bool { o := core.Callee(c); return o != nil && pred(o) })
+		return core.CallReaches(in, func(c ssa.CallInstruction) bool { o := core.Callee(c); return o != nil && pred(o) }, 2)
 	}
 }
 
